@@ -123,6 +123,76 @@ impl Engine {
         Signal::new(init)
     }
 
+    /// the six registered store collections
+    #[cfg(acts_verif)]
+    pub fn verif_store(&self) -> Arc<crate::store::Store> {
+        self.runtime.cache().store().clone()
+    }
+
+    /// live (cached) view of one process, without triggering a reload:
+    /// (state, env, err, [(tid, nid, kind, state, prev, data, err, start, end, hooks)])
+    #[cfg(acts_verif)]
+    #[allow(clippy::type_complexity)]
+    pub fn verif_live(
+        &self,
+        pid: &str,
+    ) -> Option<(
+        String,
+        String,
+        Option<String>,
+        Vec<(
+            String,
+            String,
+            String,
+            String,
+            Option<String>,
+            String,
+            Option<String>,
+            i64,
+            i64,
+            String,
+        )>,
+    )> {
+        let p = self.runtime.cache().verif_cached(pid)?;
+        let mut tasks = p.tasks();
+        tasks.sort_by(|a, b| a.timestamp.cmp(&b.timestamp));
+        let v = tasks
+            .iter()
+            .map(|t| {
+                (
+                    t.id.clone(),
+                    t.node().id().to_string(),
+                    t.node().kind().to_string(),
+                    t.state().to_string(),
+                    t.prev(),
+                    t.data().to_string(),
+                    t.err().map(|e| e.to_string()),
+                    t.start_time(),
+                    t.end_time(),
+                    serde_json::to_string(&t.hooks()).unwrap_or_default(),
+                )
+            })
+            .collect();
+        Some((
+            p.state().to_string(),
+            p.env().to_string(),
+            p.err().map(|e| e.to_string()),
+            v,
+        ))
+    }
+
+    /// drop a process from the cache (the store rows stay)
+    #[cfg(acts_verif)]
+    pub fn verif_evict(&self, pid: &str) {
+        self.runtime.cache().verif_uncache(pid);
+    }
+
+    /// emit one tick now
+    #[cfg(acts_verif)]
+    pub fn verif_tick(&self) {
+        self.runtime.emitter().emit_tick();
+    }
+
     pub fn is_running(&self) -> bool {
         self.runtime.is_running()
     }
